@@ -45,6 +45,19 @@ class _Hang(BaseException):
     pass
 
 
+def _safe_str(e) -> str:
+    try:
+        return str(e)[:600]
+    except Exception:  # noqa: e.g. ParsingExceptionList.__str__ reprs marshalling objects, which can raise
+        items = getattr(e, "items", None)
+        if items:
+            try:
+                return "; ".join(f"{type(x).__name__}: {x}" for x in items)[:600]
+            except Exception:  # noqa
+                pass
+        return "<" + type(e).__name__ + ">"
+
+
 def run_job(job: dict, jobdir: Path) -> dict:
     from pydjinni import API
     shutil.rmtree(jobdir, ignore_errors=True)
@@ -65,14 +78,14 @@ def run_job(job: dict, jobdir: Path) -> dict:
         except BaseException as e:  # noqa
             if isinstance(e, (_Hang, KeyboardInterrupt)):
                 raise
-            return {"ok": False, "stage": "parse", "cls": type(e).__name__, "msg": str(e)[:600]}
+            return {"ok": False, "stage": "parse", "cls": type(e).__name__, "msg": _safe_str(e)}
         for t in job.get("targets", ALL_TARGETS):
             try:
                 ctx = ctx.generate(t, clean=True)
             except BaseException as e:  # noqa
                 if isinstance(e, (_Hang, KeyboardInterrupt)):
                     raise
-                return {"ok": False, "stage": "generate:" + t, "cls": type(e).__name__, "msg": str(e)[:600]}
+                return {"ok": False, "stage": "generate:" + t, "cls": type(e).__name__, "msg": _safe_str(e)}
         res = {"ok": True, "files": {}}
         if "dep" in job.get("want", ()):
             res["dep"] = sorted({d.deprecated for d in _all_decls(ctx) if isinstance(d.deprecated, str)})
